@@ -64,6 +64,8 @@ def tup(vals):
 
 
 def run(ctx):
+    from .common import array_hazard_sweep
+    array_hazard_sweep(ctx, "R4", ("magnetic_ff", "cromermann"), "results then depend on what the caller does with its array between calls")
     F = folder(ctx)
     _radius(ctx, F)
     _crystal(ctx, F)
@@ -313,16 +315,6 @@ def _magnetic(ctx, F):
                    factor(qj) * expr.subs(q, qj), fsite(ctx, f"magnetic_ff.{fname}"))
         ctx.check(list(grid.items) == [q1, q2], "R4", f"{fname} leaves the caller's Q array untouched (evaluation {call_no})",
                   f"the array now holds {_s(grid.items)}", fsite(ctx, f"magnetic_ff.{fname}"))
-    from ptstat.taint import caller_array_hazards
-    nfun = 0
-    for qual, fn in ctx.src.funcs.items():
-        if fn.module in ("magnetic_ff", "cromermann") and isinstance(fn.node, ast.FunctionDef):
-            nfun += 1
-            for why, node in caller_array_hazards(fn.node):
-                ctx.fail("R4", f"{qual}: {why}", f"{ast.unparse(node)[:80]}: results then depend on what the caller does with its array between calls",
-                         f"{ctx.src.where(fn.module, node)} {qual}")
-    ctx.ok("R4", "no form-factor function updates a caller-supplied array in place or keeps a reference to it",
-           site="periodictable/magnetic_ff.py, cromermann.py", sample={"functions": nfun})
     MF = I.get_class("magnetic_ff.MagneticFormFactor")
     m = I.instantiate(MF, [], {}, name="mff", open_attrs=())
     perm = {"j2": (D, c, C, b, B, a, A), "j4": (B, a, A, b, C, c, D), "j6": (C, c, B, b, A, a, D)}
